@@ -217,8 +217,9 @@ func derivesOnlyFrom(v, d ssa.Value, depth int) bool {
 	return false
 }
 
-func c13R3(c *core.Ctx) {
-	rule := "C13.R3"
+func c13R3(c *core.Ctx) { c13R3Rule(c, "C13.R3") }
+
+func c13R3Rule(c *core.Ctx, rule string) {
 	c.Rule(rule, "interface contract of mesh.GossipData.Merge (\"merges the other GossipData into this one and returns the result\"; gossipSender keeps the return value as the pending payload): every implementation in the repository returns a value aliasing its receiver on every non-panicking path", 1)
 	var iface *types.Interface
 	for _, pk := range c.P.Pkgs {
